@@ -1,4 +1,5 @@
 import GoCrypt.Base.Bytes
+import GoCrypt.Model.TagInfo
 
 /-! Mutable state of the line-protocol driver (registry history for the dispatcher suite, …). -/
 
@@ -6,7 +7,7 @@ namespace GoCrypt.Driver
 
 structure DState where
   registry : List (Bytes × String) := []
-  deriving Inhabited
+  shapes : List (String × Except GoCrypt.Codec.TagErr GoCrypt.Codec.TypeInfo) := []
 
 abbrev Handler := DState → List String → Option (DState × String)
 
